@@ -39,6 +39,7 @@ type caseSpec struct {
 }
 
 type execResult struct {
+	schedErr  error
 	issued    int
 	errs      []string
 	trace     string
@@ -63,7 +64,36 @@ func wsSubscribe(quoteID, subID string, id int) []byte {
 	return b
 }
 
+// run executes the case; a scheduler error (tasks blocked for good) counts only if it shows again when the recorded
+// grant sequence is replayed twice - otherwise the machine was too busy for the watchdog: inconclusive, no verdict.
 func run(t world.T, cs caseSpec, choose sched.Chooser) execResult {
+	r := runOnce(t, cs, choose)
+	if r.schedErr == nil {
+		return r
+	}
+	for try := 0; try < 2; try++ {
+		k := 0
+		again := runOnce(t, cs, func(step int, enabled []*sched.Task, cur int) int {
+			c := 0
+			if k < len(r.choices) {
+				c = r.choices[k]
+			}
+			k++
+			if c >= len(enabled) {
+				c = 0
+			}
+			return c
+		})
+		if again.schedErr == nil {
+			rec.Inconclusive()
+			again.choices = r.choices
+			return again
+		}
+	}
+	return r
+}
+
+func runOnce(t world.T, cs caseSpec, choose sched.Chooser) execResult {
 	w := world.New(t, world.Config{CaseSeed: 300 + cs.Seed, FeeMode: lnmodel.FeeZero, WithServer: cs.WS})
 	defer w.Close()
 	q, err := w.RequestMintQuote(8, nil)
@@ -211,6 +241,7 @@ func run(t world.T, cs caseSpec, choose sched.Chooser) execResult {
 	res.trace = s.TraceString()
 	res.switches, res.blocked, res.choices = s.Switches, s.Blocked, choices
 	if err != nil {
+		res.schedErr = err
 		res.violation, res.detail = "C03|sched|scheduler_error", err.Error()
 		return res
 	}
